@@ -17,8 +17,9 @@
     instantiated with the *pinned* test kinds (`c14.merge`);
 (d) known inputs: D12 (option truthiness — repaired by d8c74a2, kept as a regression case: a failing
     cell with a falsy value is reported as a plain VIOLATION with the recorded signature), D45
-    (include_file cycle), D46 (macro cycle through a nested template), D47 (snowfakery_version declared
-    in an included file is lost);
+    (include_file cycle, repaired by 70277f6), D46 (macro cycle through a nested template, 97f2c27), D47
+    (snowfakery_version declared in an included file is lost, 6931335) — all kept as regression inputs
+    with their recorded signatures; a RecursionError counts as such also when parse_recipe wraps it;
 (e) stateful definitions: macros whose fields keep per-definition run-time state (Counters.NumberCounter,
     Counters.DateCounter, Dataset.iterate over a small CSV) included by >= 2 templates — directly, through
     a wrapper macro, twice in one chain — must count per template exactly as the inlined recipe does.
@@ -37,8 +38,8 @@ SPEC = {
     "lean": ["SnowModel.Props.C14", "SnowModel.Props.C14Bridge"],
     "pins": ["Compose"],
     "technique": "Lean 4 proofs over a parse-layer model (Python-dict de-duplication, recursive macro expansion with the cycle check, depth-first include flattening, option decision table parameterised by the pinned tests) + pins of merge_options' two tests, the de-dup expression, the step order of parse_top_level_elements / parse_object_template / include_macro + real-run metamorphic refactoring (factored recipe vs spec-inlined recipe) and model/parse_recipe correspondence",
-    "level_text": "Machine-checked: de-dup = first position / last definition (dedupe_spec) and intermediate de-dups are invisible; a template with `include:` equals the template with the macros' raw fields / friends written first (macro_inline_equiv), own fields override all macros and later macros earlier ones; the inclusion chain terminates by the cycle check (macro_expansion_terminates) — refuted for cycles through nested templates; include_file = depth-first prepend independent of the position of the include lines, the includer's macro wins (include_prepend, include_position_independent, includer_macro_wins), termination under acyclic inclusion — refuted for mutual inclusion; option decision table for the repaired tests (option_decision, merge_supplied), and for the pinned code (option_decision_pinned, merge_supplied_pinned; the old truthiness tests are characterised by truthyGet_decision_exact). On the real code every generated factoring must give the same parse result and the same rows as its inlining, and every option cell must evaluate to the supplied value.",
-    "level_note": "Trusted: Lean kernel, py2lean, harness (YAML emitter, canonicalisation of ParseResult, the 40-line spec inliner). Field definitions other than nested templates and the template attributes are opaque payloads in the model; parse_element's key/type checks, plugins and line numbers are outside it (C20). D45, D46, D47 are listed findings; D12 is repaired (d8c74a2) and kept as a regression input. The identity of parsed definition objects (per-site run-time state) is not part of the parse model: it is covered by the row comparison on recipes with stateful fields in shared macros.",
+    "level_text": "Machine-checked: de-dup = first position / last definition (dedupe_spec) and intermediate de-dups are invisible; a template with `include:` equals the template with the macros' raw fields / friends written first (macro_inline_equiv), own fields override all macros and later macros earlier ones; macro expansion terminates for every macro table and template within #macros·(deepest body+2)+depth+2 steps, every cycle — through `include:` lines, friends or object-valued fields — being a recipe error (macro_expansion_terminates, macro_cycle_is_error, macro_nested_cycle_detected); include_file = depth-first prepend independent of the position of the include lines, the includer's macro wins (include_prepend, include_position_independent, includer_macro_wins), a file reached several times contributes every time (include_twice_contributes_twice, diamond_contributes_twice), reading terminates for every file map within #files+2 steps, a file that is still open being a recipe error (flatten_terminates, include_cycle_is_error), every declared snowfakery_version is honoured and conflicts are errors (include_version_honoured, include_versions_agree); option decision table for the repaired tests (option_decision, merge_supplied), and for the pinned code (option_decision_pinned, merge_supplied_pinned; the old truthiness tests are characterised by truthyGet_decision_exact). On the real code every generated factoring must give the same parse result and the same rows as its inlining, and every option cell must evaluate to the supplied value.",
+    "level_note": "Trusted: Lean kernel, py2lean, harness (YAML emitter, canonicalisation of ParseResult, the 40-line spec inliner). Field definitions other than nested templates and the template attributes are opaque payloads in the model; parse_element's key/type checks, plugins and line numbers are outside it (C20). D12, D45, D46, D47 are repaired (d8c74a2, 70277f6, 97f2c27, 6931335) and kept as regression inputs. The identity of parsed definition objects (per-site run-time state) is not part of the parse model: it is covered by the row comparison on recipes with stateful fields in shared macros.",
     "assumptions": [
         "transparency is checked at the boundary parse_recipe -> interpreter: equal ParseResult (statements, option declarations, version) plus equal captured rows of the real runs",
         "include files live in one flat directory (names, not paths)",
@@ -47,7 +48,7 @@ SPEC = {
 }
 
 MAIN = "main.recipe.yml"
-FUEL = 40
+FUEL = 150
 
 # ----------------------------------------------------------------------------- YAML emission
 
@@ -242,6 +243,17 @@ def real_stmt(s):
     return {"var": s.varname, "value": real_def(s.expression)}
 
 
+def status_of_exception(e):
+    """Outcome class; a `RecursionError` counts as such also when `parse_recipe` has wrapped it into a
+    recipe error (commit a5a821f): the interpreter stack was exhausted, the cycle was not *detected*."""
+    x, seen = e, 0
+    while x is not None and seen < 10:
+        if isinstance(x, RecursionError):
+            return "internal:RecursionError"
+        x, seen = (x.__cause__ or x.__context__), seen + 1
+    return common.outcome_of_exception(e)
+
+
 def real_parse(files, main=MAIN):
     """Run the real `parse_recipe` on the files; canonical {status, statements, options, version}."""
     from snowfakery.parse_recipe_yaml import parse_recipe
@@ -257,7 +269,7 @@ def real_parse(files, main=MAIN):
         except BaseException as e:  # noqa
             if isinstance(e, (KeyboardInterrupt, SystemExit)):
                 raise
-            return {"status": common.outcome_of_exception(e), "error": f"{type(e).__name__}: {str(e)[:200]}"}
+            return {"status": status_of_exception(e), "error": f"{type(e).__name__}: {str(e)[:200]}"}
         opts = []
         for o in pr.options:
             has = "default" in o
@@ -348,13 +360,13 @@ def spec_fd(macros, fd, depth):
 
 
 def spec_inline(files, main=MAIN):
-    """Single-file recipe without macros and includes (the main file's version declarations are kept)."""
+    """Single-file recipe without macros and includes (all version declarations first)."""
     items = spec_flatten(files, main)
     macros = {}
     for it in items:
         if it["k"] == "macro":
             macros[it["name"]] = it  # later definition wins
-    out = [it for it in files[main] if it["k"] == "version"]
+    out = [it for it in items if it["k"] == "version"]  # pulled in like every other declaration
     out += [it for it in items if it["k"] in ("option", "plugin")]
     out += [{"k": "stmt", "s": spec_stmt(macros, it["s"])} for it in items if it["k"] == "stmt"]
     return {main: out}
@@ -589,8 +601,13 @@ def factor_recipe(rng, rc):
         if incl[name]:
             pos = [i for i, it in enumerate(files[name]) if it["k"] == "include"]
             fx.features.add("include-line:" + ("top" if pos[0] == 0 else "bottom" if pos[0] == len(files[name]) - 1 else "middle"))
-    # version: in the main file (always); sometimes repeated in an included file
-    files[MAIN] = insert_at(rng, files[MAIN], [{"k": "version", "v": rc["version"]}])
+    # version: in the main file, or (a quarter of the recipes with include files) only in an included one;
+    # sometimes repeated in other included files
+    vtgt = MAIN
+    if len(names) > 1 and rng.random() < 0.25:
+        vtgt = rng.choice([x for x in names if x != MAIN])
+        fx.features.add("version-only-in-include")
+    files[vtgt] = insert_at(rng, files[vtgt], [{"k": "version", "v": rc["version"]}])
     for name in names:
         if name != MAIN and rng.random() < 0.2:
             files[name] = insert_at(rng, files[name], [{"k": "version", "v": rc["version"]}])
@@ -641,8 +658,31 @@ def _dfs(incl, name):
 def malformed(rng):
     """Small recipes where the property speaks about errors / non-termination."""
     k = rng.choice(["unknown-macro", "macro-cycle", "macro-self", "missing-file", "bad-version", "version-conflict",
-                    "unknown-macro-in-macro"])
+                    "unknown-macro-in-macro", "include-cycle", "include-cycle", "macro-nested-cycle", "macro-nested-cycle",
+                    "version-conflict-across-files"])
     A = {"object": "A", "fields": [["f1", ["lit", 1]]]}
+    if k == "include-cycle":
+        # a cycle of 1-3 files, entered from the main file or from a file the main file includes
+        fs = d41_files(rng.randint(1, 3))
+        if rng.random() < 0.5:
+            fs = {("x.yml" if n == MAIN else n): [dict(it, name="x.yml") if it.get("name") == MAIN else it for it in items]
+                  for n, items in fs.items()}
+            fs[MAIN] = [{"k": "stmt", "s": A}, {"k": "include", "name": "x.yml"}]
+        return k, fs
+    if k == "macro-nested-cycle":
+        # m (-> n through `include:`) whose friend / object-valued field includes m again
+        inner = {"object": "X", "include": "m"}
+        via = rng.choice(["friend", "field"])
+        body = {"friends": [inner]} if via == "friend" else {"fields": [["f1", ["nested", inner]]]}
+        if rng.random() < 0.5:
+            ms = [dict({"k": "macro", "name": "m", "include": "n", "fields": []}), dict({"k": "macro", "name": "n", "fields": []}, **body)]
+        else:
+            ms = [dict({"k": "macro", "name": "m", "fields": []}, **body)]
+        A["include"] = "m"
+        return k, {MAIN: insert_at(rng, ms, [{"k": "stmt", "s": A}])}
+    if k == "version-conflict-across-files":
+        return k, {MAIN: insert_at(rng, [{"k": "include", "name": "a.yml"}, {"k": "stmt", "s": A}], [{"k": "version", "v": 2}]),
+                   "a.yml": [{"k": "version", "v": 3}]}
     if k == "unknown-macro":
         A["include"] = "nosuch"
         return k, {MAIN: [{"k": "stmt", "s": A}]}
@@ -786,6 +826,17 @@ def check_refactoring(rep, files, reps, feats=(), run_rows=True, extra=None):
     return case, pa, inl
 
 
+ERROR_FRAGMENTS = {
+    "includeCycle": "includes itself",
+    "macroNested": "through a nested object template",
+    "macroCycle": "which calls",
+    "noMacro": "Cannot find macro named",
+    "noFile": "Cannot load include file",
+    "versionConflict": "conflicting versions",
+    "badVersion": "Version must be 2 or 3",
+}
+
+
 def compare_model(rep, what, case, real, model):
     st, val = model
     if st != "ok":
@@ -803,6 +854,12 @@ def compare_model(rep, what, case, real, model):
     if ms != rc:
         rep.disagreement(what + ":outcome", case, {"status": ms, "err": val.get("err")}, real)
         return "disagree"
+    if ms == "recipe_error":
+        # same *kind* of recipe error: the model's error constructor against the message of the code
+        frag = ERROR_FRAGMENTS.get((val.get("err") or [None])[0])
+        if frag and frag not in (real.get("error") or ""):
+            rep.disagreement(what + ":error-kind", case, val.get("err"), real.get("error"))
+            return "disagree"
     if ms == "ok":
         for key in ("statements", "options", "version"):
             if val[key] != real[key]:
@@ -949,7 +1006,7 @@ def run_known(rep, findings):
         rep.count("known:include-cycle:" + r["status"])
         if r["status"].startswith("internal"):
             rep.violation(SIG_D41 if r["status"] == "internal:RecursionError" else "C14:include-file-cycle:" + r["status"],
-                          f"{n} file(s) including each other: {r['status']} escapes (file inclusion has no cycle check)", case, "recipe_error", r["status"])
+                          f"{n} file(s) including each other: {r['status']}: the cycle is not detected (no check on the stack of files being parsed)", case, "recipe_error", r["status"])
         _model_one(rep, "c14.parse:include-cycle", case, files, r)
     # D46 (was D42): macro reaches itself through a nested template
     for via in ("friend", "field"):
@@ -960,7 +1017,7 @@ def run_known(rep, findings):
         rep.count("known:macro-cycle-via-nested:" + r["status"])
         if r["status"].startswith("internal"):
             rep.violation(SIG_D42 if r["status"] == "internal:RecursionError" else "C14:macro-cycle-via-nested-template:" + r["status"],
-                          f"macro m reaches itself through a {via} template: {r['status']} escapes (the cycle check restarts at every template)", case, "recipe_error", r["status"])
+                          f"macro m reaches itself through a {via} template: {r['status']}: the cycle is not detected (the chain check restarts at every template and nothing tracks the macros under expansion)", case, "recipe_error", r["status"])
         _model_one(rep, "c14.parse:macro-cycle-nested", case, files, r)
     # a file reached by include_file several times (fixed regression input)
     case, pa, inl = check_refactoring(rep, diamond_files(), 1)
@@ -987,7 +1044,8 @@ def version_case(rep, files):
         ra, rb = real_run(files, 1), real_run(inl, 1)
         rep.violation(SIG_D43, f"snowfakery_version declared in an included file: effective version {pa['version']} instead of {pb['version']} when written inline; rows {canon_rows(ra.rows)[:1]} vs {canon_rows(rb.rows)[:1]}", case, pb["version"], pa["version"])
     elif pa["status"].split(":")[0] != pb["status"].split(":")[0]:
-        rep.count("version-case:outcome-differs:" + pa["status"] + "/" + pb["status"])
+        rep.violation(SIG_D43, f"snowfakery_version declarations spread over included files: the recipe parses to {pa['status']} ({pa.get('error', '')[:80]}), with the declarations written inline to {pb['status']} ({pb.get('error', '')[:80]})", case, pb["status"], pa["status"])
+    rep.count("version-case:" + pa["status"].split(":")[0])
     _model_one(rep, "c14.parse:version", case, files, pa)
 
 
@@ -1031,14 +1089,21 @@ def run(ctx, rep, findings):
 
     # ---- malformed stream
     mal = []
-    for _ in range(ctx.scale(40, 400)):
+    for _ in range(ctx.scale(60, 600)):
         k, files = malformed(rng)
         case = {"kind": "parse-only", "files": files, "texts": texts(files), "family": k}
         r = real_parse(files)
         rep.case(case, nontrivial=True)
         rep.count(f"malformed:{k}:{r['status']}")
         if r["status"].startswith("internal"):
-            rep.violation("C14:malformed:" + k + ":" + r["status"], f"{k}: {r['status']} escapes", case, "recipe_error", r["status"])
+            sig = "C14:malformed:" + k + ":" + r["status"]
+            if r["status"] == "internal:RecursionError" and k == "include-cycle":
+                sig = SIG_D41
+            if r["status"] == "internal:RecursionError" and k == "macro-nested-cycle":
+                sig = SIG_D42
+            rep.violation(sig, f"{k}: {r['status']} (not detected: the interpreter stack is exhausted)", case, "recipe_error", r["status"])
+        elif k == "version-conflict-across-files" and r["status"] == "ok":
+            rep.violation(SIG_D43, f"conflicting snowfakery_version declarations in two files are accepted (version {r['version']})", case, "recipe_error", "ok")
         mal.append((case, files, r))
     for (case, files, r), m in zip(mal, common.model_batch([model_request(f) for _, f, _ in mal])):
         rep.count("compare:" + compare_model(rep, "c14.parse:malformed", case, r, m))
@@ -1121,7 +1186,7 @@ def replay(case, rep):
             sig = (SIG_D41 if fam == "include-cycle" else SIG_D42 if fam.startswith("macro-cycle-via") else "C14:malformed:" + fam + ":" + r["status"])
             if r["status"] != "internal:RecursionError" and fam in ("include-cycle",):
                 sig = "C14:include-file-cycle:" + r["status"]
-            rep.violation(sig, f"{fam}: {r['status']} escapes", case, "recipe_error", r["status"])
+            rep.violation(sig, f"{fam}: {r['status']} — the cycle is not detected, the interpreter stack is exhausted (parse_recipe may wrap it into a recipe error)", case, "recipe_error", r["status"])
         _model_one(rep, "c14.parse:" + fam, case, files, r)
     elif k == "version":
         version_case(rep, case["files"])
